@@ -976,13 +976,30 @@ def p5(e: Engine, rep: Report):
     def env_arg(n):
         a = n.ast.args
         return a[epos] if epos < len(a) else None
+    def plus_one(a, fnode):
+        # `i + 1`, or a local bound once to it (`following = index + 1`)
+        if isinstance(a, ast.Name):
+            ds = [x.value for x in walk_own(fnode)
+                  if isinstance(x, ast.Assign) and any(
+                      isinstance(t, ast.Name) and t.id == a.id
+                      for t in x.targets)]
+            stores = [x for x in walk_own(fnode) if isinstance(x, ast.Name)
+                      and x.id == a.id and isinstance(x.ctx, ast.Store)]
+            if len(ds) == 1 and len(stores) == 1:
+                a = ds[0]
+        if isinstance(a, ast.BinOp) and isinstance(a.op, ast.Add):
+            l, r = a.left, a.right
+            if isinstance(l, ast.Constant):
+                l, r = r, l
+            if isinstance(r, ast.Constant) and r.value == 1 and \
+                    isinstance(l, ast.Name):
+                return l.id
+        return None
     for n in rec:
         rep.evaluations += 1
         inc = [i for i, a in enumerate(n.ast.args)
-               if isinstance(a, ast.BinOp) and isinstance(a.op, ast.Add) and
-               isinstance(a.right, ast.Constant) and a.right.value == 1 and
-               isinstance(a.left, ast.Name) and i < len(params) and
-               a.left.id == params[i]]
+               if i < len(params) and
+               plus_one(a, n.frame.ctx.func.node) == params[i]]
         if not inc and loop_walk and position_walk() is not None:
             rep.check(position_walk(), 'P5', where,
                       'recursion advances to the next policy',
